@@ -21,18 +21,18 @@ CHECKS = {
          "Exhaustive for all lines of up to 10 (quick) / 11 (thorough) symbols over a 6-symbol alphabet covering every tokenizer state, up to 7/8 symbols through the whole Cli, and a second alphabet with Unicode blanks; lines touching an open escape are still compared structurally (pattern reference); round trip and long lines sampled.", "6/C07"),
  "C08": ("exploration", "exhaustive enumeration of small token lists, all-scalar sweep, iterator-idiom metamorphic checks, random lists and coverage-guided fuzzing, differential against a reference classifier",
          "Exhaustive for small lists over a 6-symbol alphabet; random beyond; both through ArgList directly and through the whole Cli.", "6/C08"),
- "C09": ("exploration", "generated programs (declarations compiled with the real derive macros) x generated lines, differential against an interpreter of the declaration model",
+ "C09": ("exploration", "generated programs (declarations compiled with the real derive macros) x generated lines (typed, recalled, assembled out of order, corrected), differential against an interpreter of the declaration model",
          "Declarations are sampled from a grammar covering the derive attributes and compiled by the repository's macros at check time; lines are proptest strategies built from each declaration's model and shrink as values. Program space is sampled, not exhausted.", "6/C09"),
  "C10": ("exploration", "state-space closure of a list model replayed on the real History + random op sequences + Cli sessions",
          "Every edge of the closure for small history buffers is replayed (exhaustive for those sizes and lines); random sequences up to 40-byte buffers; Cli sessions read the history back with Up/Down walks.", "6/C10"),
  "C11": ("exploration", "PBT over generated name sets x lines x cursor x buffer size against a longest-common-continuation model",
          "Library half with generated names through a protocol-conforming Autocomplete impl, derived half with a fixed derived enum/group, macro half with generated declarations compiled by the repository's macros; sampled.", "6/C11"),
- "C12": ("exploration", "generated programs x generated help-shaped lines; routing oracle + containment of every declared fact in the help output",
+ "C12": ("exploration", "generated programs x generated help-shaped lines (typed, recalled, assembled out of order, corrected); routing oracle + containment of every declared fact in the help output",
          "Same generated declarations as C09; help output is checked for every fact the declaration states (names, summaries, usage path, positionals, options, sub-commands) without pinning layout.", "6/C12"),
  "C13": ("exploration", "model-based PBT of output scripts against a framing model on bytes and on a terminal emulator, also as the oracle of a coverage-guided libFuzzer+ASan target",
          "Random output scripts (all writer entry points, arbitrary splits) at random points of sessions; sampled.", "6/C13"),
- "C14": ("fault_enumeration", "exhaustive single-fault injection at every sink call of a scenario corpus (once and permanent) + random faults in generated sessions",
-         "Every write/flush call index of every corpus scenario is failed in turn in both modes, then the session continues on a repaired sink; generated sessions extend the corpus.", "6/C14"),
+ "C14": ("fault_enumeration", "exhaustive single-fault injection at every sink call of a scenario corpus (once and permanent, every ErrorKind) + random faults in generated sessions",
+         "Every write/flush call index of every corpus scenario is failed in turn in both modes and with each of the 18 error kinds embedded_io names, then the session continues on a repaired sink; generated sessions extend the corpus.", "6/C14"),
  "C15": ("exploration", "model-based PBT with an unflushed-byte counter in the sink (invariant after every call), also as the oracle of a coverage-guided libFuzzer+ASan target; the same sessions on sinks of other types (zero-sized, large, &mut)",
          "Invariant over call histories; sampled sessions covering every output-producing path.", "6/C15"),
  "C16": ("exploration", "configuration matrix: the runner is built for all 8 feature subsets; model-based PBT per build + metamorphic equality across builds + generated declarations compiled without the help feature",
